@@ -165,6 +165,22 @@ def run(check, an: Analysis):
                                                       ast.unparse(mbody[0].targets[0]))
     check.instance('first', '_first_monitor', ok, where_fn(monitor),
                    'awaits the contestant and puts exactly its result')
+    # aborting the rest: closing children iterates copies (a closed child removes itself)
+    for name in ('_close_children', '_close_volatile'):
+        fn = an.method(SCOPE, name)
+        for node in ast.walk(fn.node):
+            if isinstance(node, ast.For) and '_children' in ast.unparse(node.iter):
+                ok = (isinstance(node.iter, ast.Call) and (
+                    (isinstance(node.iter.func, ast.Attribute)
+                     and node.iter.func.attr == 'copy')
+                    or ast.unparse(node.iter.func) in ('list', 'tuple'))) or (
+                    isinstance(node.iter, ast.Subscript)
+                    and isinstance(node.iter.slice, ast.Slice))
+                check.instance('first' if name == '_close_volatile' else 'collect',
+                               'abort-all:%s-iterates-copy' % name, ok,
+                               '%s:%d' % (fn.module.relpath, node.lineno),
+                               'every remaining activity is aborted, not every second one '
+                               '(`%s`)' % ast.unparse(node.iter))
     # ---- Y -------------------------------------------------------------------------
     bad = c20.failing_normal_path(cpaths)
     check.instance('Y', 'collect', bad is None, where_fn(collect),
